@@ -34,6 +34,12 @@ def plan(tier, seed, kf_ids):
             if w == 16 and (f == w // 2 or not q):
                 jobs.append(mk("c18_divw_" + tg, "divw", t, "Wrapping<%s>: / is trunc(a*2^f/b) when representable (multiply-back) and does "
                                "not panic on overflow" % al, al, timeout=1800))
+            if w >= 32 and (f == w // 2 or not q):
+                for (k, neg) in [(0, False), (w // 2 - 1, False)] + ([(0, True), (w - 2, True)] if s == "I" else [(w - 1, False)]):
+                    jobs.append(mk("c18_divc_%s_%sp%d" % (tg, "m" if neg else "", k), "divc", "%s, %d, %s" % (t, k, "true" if neg else "false"),
+                                   "Wrapping<%s>: / /= %% %%= (by value and by reference) by the constant divisor %s2^%d ulp equal the exact quotient / "
+                                   "remainder mod 2^W for EVERY dividend, no panic on overflow" % (al, "-" if neg else "+", k), al,
+                                   bounds="all dividends, divisor constant"))
             if w in (8, 64) and f == w // 2:
                 for form in range(4):
                     jobs.append(mk("c18_divzero%d_%s" % (form, tg), "divzero", "%s, %d" % (t, form), "Wrapping<%s>: division/remainder by zero "
@@ -64,7 +70,8 @@ def plan(tier, seed, kf_ids):
         "bounds": "all operands per instantiated alias; linear/bit/shift/rounding/sum for all ten families; multiplication forms for "
                   "widths 8..32; division forms for width 8 (all) and 16 (operator /, multiply-back); 3-operation programs for widths "
                   "8, 16 (32 thorough)",
-        "outside": ["division on widths >= 32 and multiplication on 64/128 bits through Wrapping (the kernels are C01/C02's)",
+        "outside": ["division on widths >= 32 with a symbolic divisor (every dividend is decided against constant power-of-two divisors) and "
+                    "multiplication on 64/128 bits through Wrapping (the kernels are C01/C02's)",
                     "parsing through Wrapping (FromStr delegates to wrapping_from_str, C08)", "is_power_of_two / next_power_of_two / rotate"],
         "assumptions": ["zero divisors excluded except in the must-panic obligations", "non-finite floats excluded (C05)"],
         "stubs": [],
